@@ -35,6 +35,8 @@ func runC13(w *core.World, r *core.Report) {
 	r.Rule("R2", "Put/Get: every path after the opener's success passes a closer; commit errors reach the caller")
 	r.Rule("R3", "local transactions (Dump, ensureTable): ended on every path; failure edge does not touch the handle")
 	r.Rule("R4", "Abort/Stop/Close: stored handle dereferenced only behind a non-nil test")
+	r.Rule("R10", "Stop reports success only after a Commit (a transaction the library rolled back is not acknowledged)")
+	r.Rule("R11", "Put/Get and everything they run (internal rollback, lazy opener, single commit) never store the transaction mode flag")
 	r.Rule("R9", "the stored transaction handle is forgotten (tx = nil) only after a Commit or Rollback on every path")
 	r.Rule("R8", "a back end that declares one of Start/Stop/Abort itself declares all three (none falls back to DbBase's no-op)")
 	r.Rule("R7", "no new transaction after a rollback in the same operation")
@@ -642,6 +644,8 @@ func runC13(w *core.World, r *core.Report) {
 	checkNoReopenAfterRollback(w, r, "R7", fns, openers, closers)
 	checkTxMethodsDeclaredTogether(w, r, "R8")
 	checkHandleClearedAfterCloser(w, r, "R9")
+	checkStopAcknowledgesOnlyCommits(w, r, "R10")
+	checkModeFlagNotChangedByOperations(w, r, "R11")
 }
 
 // isNamedResult: fn declares a named result with this name (only then does an assignment made in a
